@@ -511,6 +511,25 @@ static std::string run_cmd(const std::vector<std::string>& a) {
         refresh_sp(s);
         return "set " + state(s);
     }
+    if (c == "setself") {
+        // setself <slot> <setter> <getter>: the argument is the view one of the object's own getters returned
+        need(3);
+        const int s = slot_of(a[1]); if (s < 0) return "ERR bad-args";
+        upa::url& u = U(s); const std::string& w = a[2]; const std::string& g = a[3];
+        if (!u.is_valid()) return "set " + state(s);
+        upa::string_view v;
+        if (g == "href") v = u.href(); else if (g == "protocol") v = u.protocol(); else if (g == "username") v = u.username();
+        else if (g == "password") v = u.password(); else if (g == "host") v = u.host(); else if (g == "hostname") v = u.hostname();
+        else if (g == "port") v = u.port(); else if (g == "pathname") v = u.pathname(); else if (g == "search") v = u.search();
+        else if (g == "hash") v = u.hash(); else if (g == "path") v = u.path(); else return "ERR bad-getter";
+        bool r = false;
+        if (w == "href") r = u.href(v); else if (w == "protocol") r = u.protocol(v); else if (w == "username") r = u.username(v);
+        else if (w == "password") r = u.password(v); else if (w == "host") r = u.host(v); else if (w == "hostname") r = u.hostname(v);
+        else if (w == "port") r = u.port(v); else if (w == "pathname") r = u.pathname(v); else if (w == "search") r = u.search(v);
+        else if (w == "hash") r = u.hash(v); else return "ERR bad-setter";
+        (void)r; refresh_sp(s);
+        return "set " + state(s);
+    }
     if (c == "get") { need(1); const int s = slot_of(a[1]); if (s < 0) return "ERR"; if (g_want_arm) { upa::url& u_ = U(s); std::string o_; ARM(o_ = u_.origin()); } return "get " + state(s); }
     if (c == "clear") { need(1); const int s = slot_of(a[1]); if (s < 0) return "ERR"; ARM(U(s).clear()); return "clear " + state(s); }
     if (c == "copy") { need(2); const int d = slot_of(a[1]), s = slot_of(a[2]); if (d < 0 || s < 0) return "ERR"; ARM(U(d) = U(s)); refresh_sp(d); return "copy " + state(d) + " | " + state(s); }
